@@ -153,6 +153,20 @@ Theorem C05_executable_hypotheses : forall e P sd th n vs k t0 x y now,
 Proof. exact executable_hypotheses. Qed.
 Print Assumptions C05_executable_hypotheses.
 
+(*    The bound is within two ticks of exact: a history inside all the hypotheses in which, two ticks
+      before the bound, nothing has been delivered yet (the first datagram leaves one tick before the
+      network heals and is lost; an update() finds the retry one tick too young, the next one comes tau
+      later, the network takes d). *)
+Theorem C05_bound_within_two_ticks_of_exact :
+  exists e P k t0 th cli srv p ucb hs now,
+    live_start k t0 cli srv /\ lenv_ok e /\ len p <= e_max_payload e /\ 0 <= tp_d P
+    /\ hvalid e P SCli th (after_send e SCli cli srv p ucb t0) hs
+    /\ hnow P SCli th (trun e P (after_send e SCli cli srv p ucb t0) hs) now
+    /\ now = Z.max th t0 + live_bound P cli - 2
+    /\ c_incoming (t_srv (trun e P (after_send e SCli cli srv p ucb t0) hs)) = c_incoming srv.
+Proof. exact bound_nearly_tight_proof. Qed.
+Print Assumptions C05_bound_within_two_ticks_of_exact.
+
 (* Why "_partial" (the full clause, kept visible): "for every payload length up to the fragmentation
    limit, every pattern of lost/duplicated/reordered datagrams in both directions followed by a healed
    network, and EVERY INTERLEAVING WITH OTHER TRAFFIC, the message is delivered".  Proved above: every
